@@ -228,20 +228,26 @@ def run(ctx):
     bench.wait()
     bench.preload(TEMPLATES, range(1, 7))
     bench.check_shapes()
-    for v in V.HOSTILE_VARIANTS:
-        bench.hostile(v, 1)
+    hvs = bench.hostile_variants()
     rng = random.Random(ctx.seed)
     stats = dict(sessions=0, rounds=0, violations=0, known=0, unobserved=0, idle_checks=0, cases=set(), samples=[])
 
     sample = pick(scens, rng, 110 if quick else 1500)
-    rounds = rounds_of(sample, rng)
+    rounds = rounds_of(sample, rng, hvs)
+    # every hostile variant (function-table entries outside the code section: plainly, and as pairs whose 32-bit sum
+    # wraps around; undefined opcode) at least once per stage, next to a well-formed client
+    one_hostile = [s for s in scens if s["kinds"].count("hostile") == 1 and s["gaps"] == ["overlap", "overlap"]]
+
+    def per_variant():
+        return [dict(scens=[one_hostile[rng.randrange(len(one_hostile))]], seed=rng.getrandbits(31), hostile_variant=v) for v in hvs]
+    rounds = per_variant() + rounds
     # two scenarios at once (6 clients) now and then
     for _ in range(6 if quick else 60):
         a, b = rng.choice(scens), rng.choice(scens)
-        rounds.append(dict(scens=[a, b], seed=rng.getrandbits(31), hostile_variant=rng.choice(V.HOSTILE_VARIANTS)))
+        rounds.append(dict(scens=[a, b], seed=rng.getrandbits(31), hostile_variant=rng.choice(hvs)))
     run_rounds(ctx, bench, "plain", rounds, findings, stats, "plain", yield_seed=ctx.seed * 31 + 5)
     asample = pick(scens, rng, 40 if quick else 400, kinds_min=1)
-    run_rounds(ctx, bench, "asan", rounds_of(asample, rng), findings, stats, "asan", yield_seed=0)
+    run_rounds(ctx, bench, "asan", per_variant() + rounds_of(asample, rng, hvs), findings, stats, "asan", yield_seed=0)
 
     traces = dict(validated=0, events=0, rejected=0)
     try:
@@ -249,7 +255,7 @@ def run(ctx):
     except ImportError:
         vmd_trace = None
     if bench.traced and vmd_trace:
-        tsample = rounds_of(pick(scens, rng, 40 if quick else 300, kinds_min=1), rng)
+        tsample = rounds_of(pick(scens, rng, 40 if quick else 300, kinds_min=1), rng, hvs)
         nh = 0
         keep = []
         for rd in tsample:                     # every hostile round costs a daemon and a TLC run of its own
@@ -276,6 +282,7 @@ def run(ctx):
              "daemon and judged against the reply set the spec allows / the standalone run; distinct = (behaviour, hostile variant, "
              "close vs half-close, raw vs real client)",
         scenarios_generated=len(scens), rounds=stats["rounds"], behaviours_replayed=kinds_seen,
+        hostile_variants=hvs, hostile_variants_replayed=sorted({c[1] for c in stats["cases"] if c[1]}),
         sessions_closed_unobserved=stats["unobserved"], idle_checks=stats["idle_checks"], known_hits=stats["known"],
         model=dict(depth=main.depth,
                    sensitivity=dict(verify_off=mres["asis"].violated, sigpipe_default=mres["sigpipe"].violated,
@@ -288,8 +295,10 @@ def run(ctx):
         "a session whose client closed its own socket is judged by the daemon's health and bookkeeping (STATUS returns to 1), "
         "not by a reply nobody can read",
         "the SHUTDOWN message (a well-formed request to stop) is outside the behaviour set of the property",
-        "hostile modules: four function-table / opcode corruptions with recomputed checksum, each refused by standalone nano_vm "
-        "with 'Bytecode verification failed' (checked on every run); the full hostile-module space belongs to C13",
+        "hostile modules: seven function-table / opcode corruptions with recomputed checksum (three of them offset/length pairs "
+        "whose 32-bit sum wraps); hostile by construction - the harness re-reads the image and checks in exact arithmetic that "
+        "the entry lies outside the code section (the undefined-opcode variant is used only if the tree's verifier refuses it); "
+        "the full hostile-module space belongs to C13",
         "a daemon crash in a round with a hostile client is attributed to it only if the same round without it is clean on a fresh daemon",
     ]
     return "model_checking", cov, assumptions
